@@ -94,13 +94,13 @@ func c17Fanout(r *R) {
 	nd := r.fn("C17.2", "impl", "", "NewDataTransfer")
 	if nd != nil {
 		if s := r.one("C17.2", nd, "channels.New"); s != nil {
-			got := r.d.Of(s.Common().Args[1])
+			got := r.dOf(s.(ssa.Instruction)).Of(s.Common().Args[1])
 			r.c.Check(strings.HasSuffix(got, ".notifier$bound"), "C17.2", "channels.New/notifier", r.p.InstrPos(s), "channels notify through manager.notifier", "channels.New is given "+got+" as notifier")
 		}
 		ps := r.sites(nd, false, "github.com/hannahhoward/go-pubsub.New")
 		okD := false
 		for _, s := range ps {
-			if r.d.Of(s.Common().Args[0]) == "func:impl.dispatcher" {
+			if r.dOf(s.(ssa.Instruction)).Of(s.Common().Args[0]) == "func:impl.dispatcher" {
 				okD = true
 			}
 		}
@@ -124,26 +124,38 @@ func c17PerTransfer(r *R) {
 	}
 	sub := r.fn("C17.3", "channelsubscriptions", "ChannelSubscriptions", "subscriber")
 	if sub != nil {
+		// per path, helpers introduced later walked through in subscriber's terms
 		nCall, nDel := 0, 0
-		for _, b := range sub.Blocks {
-			for _, ins := range b.Instrs {
-				call, ok := ins.(*ssa.Call)
-				if !ok {
-					continue
-				}
-				name := r.p.CalleeName(call.Common())
-				if strings.HasPrefix(name, "dyn:cs.subscriptions[") {
+		okD, okK, okG := "", "", ""
+		var siteD, siteK ssa.Instruction
+		for _, pt := range r.pathsOf("C17.3", sub) {
+			for _, ev := range pt.Evs {
+				name := "dyn:" + pt.Desc(ev.C.Value)
+				if _, isB := ev.C.Value.(*ssa.Builtin); !isB && !ev.C.IsInvoke() && ev.C.StaticCallee() == nil && strings.HasPrefix(name, "dyn:cs.subscriptions[") {
 					nCall++
-					ok := strings.HasPrefix(name, "dyn:cs.subscriptions[state.ChannelID()][") && r.d.Of(call.Common().Args[0]) == "evt" && r.d.Of(call.Common().Args[1]) == "state"
-					r.c.Check(ok, "C17.3", "subscriber/deliver", r.p.InstrPos(call), "the event's own channel's subscribers get (evt, state)", "per-transfer delivery uses "+name+" with ("+r.d.Of(call.Common().Args[0])+", "+r.d.Of(call.Common().Args[1])+")")
+					siteD = ev.Instr
+					if !(strings.HasPrefix(name, "dyn:cs.subscriptions[state.ChannelID()][") && pt.ArgDesc(ev, 0) == "evt" && pt.ArgDesc(ev, 1) == "state") && okD == "" {
+						okD = "per-transfer delivery uses " + name + " with (" + pt.ArgDesc(ev, 0) + ", " + pt.ArgDesc(ev, 1) + ")"
+					}
 				}
-				if bi, ok := call.Common().Value.(*ssa.Builtin); ok && bi.Name() == "delete" {
+				if bi, ok := ev.C.Value.(*ssa.Builtin); ok && bi.Name() == "delete" {
 					nDel++
-					okk := r.d.Of(call.Common().Args[0]) == "cs.subscriptions" && r.d.Of(call.Common().Args[1]) == "state.ChannelID()"
-					r.c.Check(okk, "C17.3", "subscriber/release-key", r.p.InstrPos(call), "releases the event's own channel", "the subscriber table entry released is "+r.d.Of(call.Common().Args[1]))
-					r.guarded("C17.3", call, "subscriber/release-guard", "+channels.IsChannelTerminated(state.Status())")
+					siteK = ev.Instr
+					if !(pt.ArgDesc(ev, 0) == "cs.subscriptions" && pt.ArgDesc(ev, 1) == "state.ChannelID()") && okK == "" {
+						okK = "the subscriber table entry released is " + pt.ArgDesc(ev, 1)
+					}
+					if !pt.HasBefore(ev.Instr, "+channels.IsChannelTerminated(state.Status())") && okG == "" {
+						okG = "per-transfer subscribers are released although the channel has not terminated: " + pt.Describe()
+					}
 				}
 			}
+		}
+		if siteD != nil {
+			r.c.Check(okD == "", "C17.3", "subscriber/deliver", r.p.InstrPos(siteD), "the event's own channel's subscribers get (evt, state)", okD)
+		}
+		if siteK != nil {
+			r.c.Check(okK == "", "C17.3", "subscriber/release-key", r.p.InstrPos(siteK), "releases the event's own channel", okK)
+			r.c.Check(okG == "", "C17.3", "subscriber/release-guard", r.p.InstrPos(siteK), "released only once the channel terminated", okG)
 		}
 		r.c.Floor("C17.3", nCall, 1, "subscriber invocations")
 		r.c.Floor("C17.3", nDel, 1, "releases of per-transfer subscribers")
@@ -166,7 +178,8 @@ func c17PerTransfer(r *R) {
 					}
 				case *ssa.Call:
 					if bi, ok := x.Common().Value.(*ssa.Builtin); ok && bi.Name() == "delete" && strings.HasSuffix(r.d.Of(x.Common().Args[0]), ".subscriptions") && strings.Contains(core.TypeShort(x.Common().Args[0].Type()), "datatransfer.Subscriber") {
-						r.c.Check(core.ShortFn(fn) == "(*channelsubscriptions.ChannelSubscriptions).subscriber", "C17.3", "table-releaser:"+core.ShortFn(fn), r.p.InstrPos(x), "released by the termination rule only", core.ShortFn(fn)+" removes per-transfer subscribers outside the termination rule: a subscriber misses events applied before the channel terminated")
+						al := map[string]bool{"(*channelsubscriptions.ChannelSubscriptions).subscriber": true}
+						r.c.Check(al[core.ShortFn(fn)] || r.newHelperOfAllowed(core.ShortFn(fn), al, 3) != "", "C17.3", "table-releaser:"+core.ShortFn(fn), r.p.InstrPos(x), "released by the termination rule only", core.ShortFn(fn)+" removes per-transfer subscribers outside the termination rule: a subscriber misses events applied before the channel terminated")
 					}
 				}
 			}
@@ -175,7 +188,7 @@ func c17PerTransfer(r *R) {
 	// the channel-subscriptions fan-in is itself a global subscriber
 	ncs := r.fn("C17.3", "channelsubscriptions", "", "NewChannelSubscriptions")
 	if s := r.one("C17.3", ncs, "(channelsubscriptions.SubscriptionAPI).SubscribeToEvents"); s != nil {
-		got := r.d.Of(s.Common().Args[0])
+		got := r.dOf(s.(ssa.Instruction)).Of(s.Common().Args[0])
 		r.c.Check(strings.HasSuffix(got, ".subscriber$bound"), "C17.3", "fan-in", r.p.InstrPos(s), "subscribed to all events", "NewChannelSubscriptions subscribes "+got)
 	}
 	// registered before Open
